@@ -15,6 +15,7 @@ MODULES = {
     "C02": "c01_odegen",
     "C03": "c01_odegen",
     "C04": "c01_odegen",
+    "C05": "c05_laws",
     "C06": "c06_rates",
     "C07": "c07_formats",
     "C08": "c08_species",
